@@ -14,13 +14,19 @@ SPEC = {
 META = {
     "text": "Lean: for every cache and payload the fuel the decoders are given (length+1) suffices (ipfix/v9_terminates; sflow "
             "decode_ne_fuel; v5 is structurally recursive), records <= octets (ipfix/v9_record_bound), samples+counters <= octets/8 "
-            "(sflow), flows <= 30 and 48 octets each (v5_flow_bound), templates parsed from n octets have <= n/4 fields and decoded "
-            "fields <= octets x largest template (ipfix/v9_alloc_bound), sFlow model allocation <= 64*len+1525 (alloc_linear); over "
+            "(sflow), flows <= 30 and 48 octets each (v5_flow_bound), templates parsed from n octets have <= n/4 fields; decoded fields are "
+            "linear in the datagram plus exactly the zero-length term of finding K4: per record fields <= octets consumed + zero-length "
+            "specifiers of the template (ipfix/v9_record_fields_le_octets, unconditional), per message fields <= octets + records x Z with Z "
+            "bounding the zero-length specifiers of every cached template and of every template record that parses at some offset of the "
+            "datagram (ipfix/v9_fields_linear), Z = 0: fields <= octets (ipfix/v9_fields_le_octets); the product octets x largest template "
+            "(ipfix/v9_alloc_bound) is kept as the weaker statement; sFlow model allocation <= 64*len+1525 (alloc_linear); over "
             "regenerated facts the allocation-site inventory is the reviewed one. Correspondence: watchdog, TotalAlloc delta and record "
             "counts of every real decode call on malformed-heavy streams + the F2 witnesses.",
     "ref": "DESIGN.md §6 C02",
     "note": "Partial: wall-clock and byte counts are measured by the harness (sampled), the proofs bound steps and allocation units of "
-            "the model; IPFIX/v9 allocation is bilinear (octets x template fields), as the property's per-record DecodedField slice implies. "
+            "the model (units = decoded fields, not the octets of their values); IPFIX/v9: linear in the octets received except for the term "
+            "records x zero-length specifiers, which is the recorded finding K4 (a length-0 specifier is decoded without consuming an octet) "
+            "and is stated, not hidden: the theorems and the TotalAlloc oracle have the same shape (linear, K4 named). "
             "Trusted: Lean kernel, factgen, harness.",
     "technique": "Lean 4 fuel-sufficiency and size-bound proofs on executable decoder models + regenerated allocation-site inventory + watchdog/TotalAlloc-instrumented correspondence",
 }
